@@ -2,7 +2,7 @@
 From Coq Require Import List ZArith Bool.
 Import ListNotations.
 From SAV.base Require Import Tree.
-From SAV.cy Require Import Dual.
+From SAV.cy Require Import Dual DualAlias.
 Open Scope Z_scope.
 
 Definition exn_code (e : exn) : Z :=
@@ -17,13 +17,19 @@ Definition enc_M (m : M (list Z)) : tree :=
   L [L (map (fun c : call => L [I (fst c); I (snd c)]) (fst m)); enc_res enc_zs (snd m)].
 
 (* the callables the harness hands in, by code (the theorems hold for every callable) *)
+(* Python's None among the values: arithmetic on it is a TypeError; 5 is NOT None-preserving (a TypeDecorator
+   translating NULL), 6 passes everything through (only its calls are observable) *)
+Definition none_code : Z := -1000.
 Definition fn_of (k : Z) : fn :=
   (k, fun x =>
+        let isnone := x =? none_code in
         match k with
-        | 1 => Ok (x + 10)
-        | 2 => if Z.odd x then Raise ValueError else Ok (2 * x)
+        | 1 => if isnone then Raise TypeError else Ok (x + 10)
+        | 2 => if isnone then Raise TypeError else if Z.odd x then Raise ValueError else Ok (2 * x)
         | 3 => Raise TypeError
-        | _ => Ok (- x)
+        | 5 => if isnone then Ok 77 else Ok (x + 1)
+        | 6 => Ok x
+        | _ => if isnone then Raise TypeError else Ok (- x)
         end).
 Definition dec_proc (t : tree) : option proc :=
   match t with I 0 => Some None | I k => if 0 <? k then Some (Some (fn_of k)) else None | _ => None end.
@@ -52,6 +58,17 @@ Definition enc_getter (g : getter) : tree :=
   match g with GSlice a b => L [I 0; I a; I b] | GItems l => L [I 1; enc_zs l] end.
 Definition enc_pairs (d : list (Z * Z)) : tree := L (map (fun kv : Z * Z => L [I (fst kv); I (snd kv)]) d).
 
+Definition dec_aop (t : tree) : option aop :=
+  match t with
+  | L [I 0; l] => match as_list_of as_Z l with Some l' => Some (ANew l') | None => None end
+  | L [I 1; I o] => if 0 <=? o then Some (AUnique (Z.to_nat o)) else None
+  | L [I 2; I o] => if 0 <=? o then Some (AOrdSet (Z.to_nat o)) else None
+  | L [I 3; I o; I x] => if 0 <=? o then Some (AAppend (Z.to_nat o) x) else None
+  | L [I 4; I o; I x] => if 0 <=? o then Some (AAdd (Z.to_nat o) x) else None
+  | L [I 5; I o] => if 0 <=? o then Some (ARead (Z.to_nat o)) else None
+  | _ => None
+  end.
+Definition enc_reads (l : list (list Z)) : tree := L (map enc_zs l).
 Definition both (a b : tree) : tree := L [a; b].
 
 Definition run_case (t : tree) : tree :=
@@ -110,6 +127,11 @@ Definition run_case (t : tree) : tree :=
       match as_list_of dec_pair a, as_list_of dec_pair b with
       | Some a', Some b' => both (enc_pairs (pydict_update_compiled a' b')) (enc_pairs (pydict_update_pure a' b'))
       | _, _ => bad_input
+      end
+  | L [I 11; ops] =>
+      match as_list_of dec_aop ops with
+      | Some o => both (enc_reads (a_run a_unique_compiled [] o)) (enc_reads (a_run a_unique_pure [] o))
+      | None => bad_input
       end
   | _ => bad_input
   end.
